@@ -19,7 +19,10 @@ P = {
  "C02": ("Rocq theorems (Sparse.v/SparseFacts.v): Get, RangeScan/GetAll and PrefixScan computed segment by segment (active index, "
          "then sealed segments newest first, first occurrence wins, dead records shadow) equal the reads of the single merged index, "
          "whose reads C01 ties to the specification. Tie: sparse-mode histories on the real library (small segments, deep on-disk "
-         "trees, reopens) compared call by call with the engine model run with RAM semantics and with the L0 spec.",
+         "trees, transactions spanning several segments, reopens) compared call by call with the engine model run with RAM semantics and "
+         "with the L0 spec. Translation tie (C02_code.v): processEntriesScanOnDisk and SortedEntryKeys, re-translated from /repo on every "
+         "run, equal the model's process_scan for every input and every iteration order of the Go map; buildTempBucketMetaIdx folds to the "
+         "[smallest, largest] key.",
          "The on-disk B+ tree node traversal and the index files' bytes are abstracted (per-segment sorted key list); covered by the tie. "
          "Single-bucket histories as the property states (the bucket++key ambiguity across buckets is not claimed)."),
  "C03": ("Rocq theorems: PrefixScan/PrefixSearchScan on any sorted index with any mix of live, deleted and expired records = skip offset "
@@ -152,7 +155,7 @@ P = {
          "refused Open and identical observations for accepted ones.", ""),
 }
 TECH = "Rocq (Coq 8.16.1) proof over an executable Gallina model + differential correspondence model vs code"
-TIED = {"C01", "C03", "C04", "C05", "C06", "C07", "C12", "C13", "C15", "C20", "C21"}
+TIED = {"C01", "C02", "C03", "C04", "C05", "C06", "C07", "C12", "C13", "C15", "C20", "C21"}
 cat = {"C09": "proof", "C16": "proof"}
 checks = []
 for pid in sorted(P):
